@@ -117,7 +117,7 @@ def _prog_body(case):
 def tests():
     out = []
     for name, t in sorted(TEMPLATES.items()):
-        out.append(Test("adj:" + name, partial(_body, t), quick=60 * t.weight, thorough=800 * t.weight, shard_size=200))
+        out.append(Test("adj:" + name, partial(_body, t), quick=150 * t.weight, thorough=1000 * t.weight, shard_size=200))
     out.append(Test("adj:programs", _prog_body, quick=600, thorough=10000, shard_size=150))
     return out
 
